@@ -21,3 +21,6 @@ add('C04', 'exploration', 'bounded exhaustive enumeration of fragment strings th
 add('C09', 'exploration', 'bounded exhaustive enumeration of bracket/block fragment strings against a reference stack matcher',
     'Every sequence of up to 4-6 bracket/block/middle-token fragments (balanced or not) is parsed and the six matched-pair node classes are compared, as span sets and in child-level shape, with a staged textbook stack matcher; reference and implementation are compared on every input; exhaustive within the bound.',
     _E1, 'DESIGN.md 4/C09')
+add('C07', 'exploration', 'bounded exhaustive enumeration of fragment strings x option sets (deviation-bounded) through every entry point and accessor',
+    'Every fragment sequence up to the bound goes through parse + every accessor on every node + split; fragment sequences and option deviations share one budget for format() (long inputs x one option set per filter, short inputs x every option set within 1-3 deviations); every documented option x invalid-value menu with an instrumented input. Exhaustive within the stated bounds.',
+    _E1 + ' Documented options per docs/source/api.rst; right_margin excluded (unimplemented by design).', 'DESIGN.md 4/C07')
